@@ -38,9 +38,24 @@ Section LfuBridge.
            | H : true = false |- _ => discriminate H
            | H : false = true |- _ => discriminate H
            end.
-  Ltac crush := repeat (proj; inner; clean); proj; simpl; try congruence; auto.
+  (* residual arithmetic: the source may write the same counter arithmetic in several ways (m_used_size += 1 for
+     ++m_used_size, < 1 for == 0, != 0 for > 0, ...); the boolean comparisons met by the case analysis become
+     propositions and lia decides *)
+  Ltac props :=
+    repeat match goal with
+           | H : negb _ = true |- _ => apply Bool.negb_true_iff in H
+           | H : negb _ = false |- _ => apply Bool.negb_false_iff in H
+           | H : (_ <? _) = true |- _ => apply Nat.ltb_lt in H
+           | H : (_ <? _) = false |- _ => apply Nat.ltb_ge in H
+           | H : (_ =? _) = true |- _ => apply Nat.eqb_eq in H
+           | H : (_ =? _) = false |- _ => apply Nat.eqb_neq in H
+           | H : (_ <=? _) = true |- _ => apply Nat.leb_le in H
+           | H : (_ <=? _) = false |- _ => apply Nat.leb_gt in H
+           end.
+  Ltac arith := solve [ props; first [ exfalso; lia | lia | f_equal; lia | f_equal; f_equal; lia ] ].
+  Ltac crush := repeat (proj; inner; clean); proj; simpl; try congruence; auto; try arith.
   Ltac callee L := let P := fresh "P" in pose proof L as P; unfold req in P; revert P.
-  Ltac finish := intros; clean; subst; try contradiction; try congruence; auto.
+  Ltac finish := intros; clean; subst; try contradiction; try congruence; auto; try arith.
 
   (* two states / cells with the same fields are equal (avoids unfolding nested field updates) *)
   Lemma lfdl_ext (a b : lfdl K V) :
@@ -51,7 +66,7 @@ Section LfuBridge.
   Lemma dcell_ext (a b : dcell K V) :
     dc_keyed a = dc_keyed b -> dc_lfu a = dc_lfu b -> dc_age a = dc_age b -> dc_val a = dc_val b -> a = b.
   Proof. destruct a, b; cbn. intros; subst; reflexivity. Qed.
-  Ltac same_state := apply lfdl_ext; proj; try reflexivity.
+  Ltac same_state := apply lfdl_ext; proj; try reflexivity; try lia.
 
   (* reading / writing the element of a node whose cell exists *)
   Lemma vset_some A w (l : list A) i a b : nth_error l i = Some a -> vset w l i b = Ok (upd_nth i b l).
@@ -74,7 +89,8 @@ Section LfuBridge.
     unfold mit_second, keyed_second.
     destruct (dc_keyed e) as [k|] eqn:Ek; cbn [bind]; [|exact I].
     destruct (assoc k (dl_index s)) as [kn|]; cbn [bind it_node]; [|exact I].
-    rewrite !(vset_some _ _ _ _ _ _ N). cbn [bind req]. rewrite Nat.add_1_r. unfold set_dl_cells, set_dl_mm, set_dc_lfu. proj. rewrite ?Ek. reflexivity.
+    rewrite !(vset_some _ _ _ _ _ _ N). cbn [bind req]. unfold set_dl_cells, set_dl_mm, set_dc_lfu. proj. rewrite ?Ek.
+    same_state; f_equal; lia.   (* the new use count, however the source writes "one more" *)
   Qed.
 
   Lemma g_do_erase_ok (s : lfdl K V) (n : nat) : req (g_do_erase s (It n)) (dl_do_erase s n).
@@ -85,11 +101,13 @@ Section LfuBridge.
 
   Lemma g_do_prune_ok (s : lfdl K V) now : req (g_do_prune s) (dl_do_prune false s now).
   Proof.
+    (* the test "the cache is not empty" is not destructed in the form the source happens to give it: both tests
+       are met by the case analysis of crush, and the combinations that disagree are closed by arith *)
     unfold g_do_prune, dl_do_prune. cbn [bind].
-    destruct (0 <? dl_used s); [|simpl; auto].
-    destruct (dl_mm s) as [|[c n] r] eqn:M; [simpl; auto|].
-    unfold mm_begin, mm_second. rewrite mm_count_head. cbn [bind].
-    callee (g_do_erase_ok s n). unfold bind. crush; finish.
+    destruct (dl_mm s) as [|[c n] r] eqn:M; unfold mm_begin, mm_second.
+    - unfold bind. crush; finish.
+    - rewrite mm_count_head. cbn [bind].
+      callee (g_do_erase_ok s n). unfold bind. crush; finish.
   Qed.
 
   Lemma index_erase_keeps_absent (ix ix' : list (K * nat)) it k :
@@ -120,16 +138,18 @@ Section LfuBridge.
     assoc k (dl_index s) = None -> req (g_do_insert s k v) (dl_do_insert false s k v now).
   Proof.
     intros A. unfold g_do_insert, dl_do_insert.
-    apply req_bind.
-    - destruct (List.length (dl_list s) <=? dl_used s); [|simpl; auto].
-      callee (g_do_prune_ok s now). unfold bind. crush; finish.
+    (* "make room": the capacity test is not destructed in the form the source gives it; the two tests are met by
+       the case analysis of crush, the combinations that disagree are closed by arith, and what the generated
+       part returns is read back through the literal part *)
+    match goal with |- req (bind ?x _) (bind ?y _) => assert (Q : req x y) end.
+    { callee (g_do_prune_ok s now). unfold bind. crush; finish. }
+    apply req_bind; [exact Q|].
     - intros s1 E1.
       assert (A1 : assoc k (dl_index s1) = None).
-      { destruct (List.length (dl_list s) <=? dl_used s); [|inversion E1; subst; auto].
-        pose proof (g_do_prune_ok s now) as P. unfold bind in E1.
-        destruct (g_do_prune s) eqn:G; [|discriminate]. inversion E1; subst.
-        destruct (dl_do_prune false s now) eqn:L; simpl in P; [|contradiction]. subst.
-        eapply dl_do_prune_keeps_absent; eauto. }
+      { rewrite E1 in Q. apply req_sym, req_ok in Q. revert Q.
+        destruct (List.length (dl_list s) <=? dl_used s); [|intros Q; inversion Q; subst; auto].
+        intros Q. eapply dl_do_prune_keeps_absent; eauto. }
+      clear Q.
       unfold dcell_of, l_deref.
       destruct (dl_end s1) as [n|] eqn:EE; cbn [bind]; [|exact I].
       destruct (mem_nat n (dl_list s1)); cbn [bind it_node]; [|exact I].
@@ -236,6 +256,9 @@ Section LfuBridge.
   (* ---- the range calls: the generated range-for loops against the literal recursions ---- *)
   Definition strip (l : list (Z * K * V)) : list (K * V) := map (fun x => (snd (fst x), snd x)) l.
 
+  Lemma req_eq A (x y : res A) : x = y -> req x y.
+  Proof. intros ->. apply req_refl. Qed.
+
   Lemma g_insert_range_ok (s : lfdl K V) l a now : req (g_insert_range s (strip l) a) (dl_ins_range false s l a now 0).
   Proof.
     unfold g_insert_range.
@@ -244,7 +267,7 @@ Section LfuBridge.
     { clear. induction l as [|[[z k] v] r IH]; intros s n; simpl; auto.
       callee (g_do_insert_update_ok s k v a now). unfold bind at 1 2 3.
       destruct (g_do_insert_update s k v a) as [[s1 b]|], (dl_ins false s k v a now) as [[s2 b2]|]; intros P; try contradiction; auto.
-      inversion P; subst. destruct b2; cbn [bind]; apply IH. }
+      inversion P; subst. destruct b2; cbn [bind]; (eapply req_trans; [apply IH|]); apply req_eq; f_equal; lia. }
     specialize (G l s 0). revert G.
     destruct (foldM _ _ _) as [[s' n']|]; cbn [bind]; auto.
   Qed.
@@ -259,7 +282,7 @@ Section LfuBridge.
       destruct (assoc k (dl_index s)) as [idx|] eqn:A; cbn [bind]; [|apply IH].
       rewrite A. cbn [bind]. callee (g_do_erase_ok s idx).
       destruct (g_do_erase s (It idx)) as [s1|], (dl_do_erase s idx) as [s2|]; simpl; intros P; try contradiction; auto.
-      subst. apply IH. }
+      subst. eapply req_trans; [apply IH|]. apply req_eq; f_equal; lia. }
     specialize (G l s 0). revert G.
     destruct (foldM _ _ _) as [[s' n']|]; cbn [bind]; auto.
   Qed.
@@ -332,7 +355,10 @@ Section LfuBridge.
   Theorem g_step_ok (s : lfdl K V) (e : ev K V) :
     req (g_step s e) (dl_step false s (e_op e) (e_now e) (e_rnd e)).
   Proof.
-    unfold g_step, dl_step. destruct (e_op e); try (simpl; auto; fail).
+    unfold g_step, dl_step.
+    destruct (e_op e); try (simpl; auto; fail);
+      try (unfold g_size, g_empty, g_capacity; cbn [bind req]; f_equal; f_equal; apply Bool.eq_true_iff_eq;
+           rewrite ?Bool.negb_true_iff, ?Nat.eqb_eq, ?Nat.eqb_neq, ?Nat.ltb_lt, ?Nat.ltb_ge, ?Nat.leb_le, ?Nat.leb_gt; lia).
     - unfold g_insert. callee (g_do_insert_update_ok s k v a (e_now e)). unfold bind. crush; finish.
     - callee (g_insert_range_ok s l a (e_now e)). unfold bind. crush; finish.
     - callee (g_erase_ok s k). unfold bind. crush; finish.
